@@ -62,6 +62,15 @@ theorem same_rule_at_issue_and_use (xffI peerI xffU peerU tokenHost : Bytes) (ne
   · simp [h]
   · simp [h]
 
+/-- **Only the first `X-Forwarded-For` line counts**, at issuance and at use alike: lines a proxy further
+    in adds after it change nothing, and no line at all means the TCP peer. -/
+theorem later_lines_inert (first : Bytes) (rest rest' : List Bytes) (peer peer' : Bytes) (h : first ≠ []) :
+    clientAddrOf (first :: rest) peer = clientAddrOf (first :: rest') peer' ∧
+    clientAddrOf (first :: rest) peer = trimSpace (firstElem first) := by
+  simp [clientAddrOf, clientAddr, h]
+
+theorem no_line_is_peer (peer : Bytes) : clientAddrOf [] peer = clientAddr [] peer := rfl
+
 /-- verification is on by default (the defaults map of `config.Load`, regenerated from the source) -/
 theorem default_on :
     ("Security.VerifyClientIp", "true") ∈ Generated.ConfigDefaults.table := by decide
